@@ -19,7 +19,7 @@ func init() {
 	register(&Prop{
 		ID:         "C16",
 		Title:      "DynamoDB usage restrictions are detected",
-		Decided:    "(R1) the reserved-word table equals the reference list of 573 words in both directions (a missing word under-rejects, an extra word rejects a legal request); (R2) a bare name is looked up in the environment only through one funnel in which the reserved-word test on the upper-cased literal precedes the lookup whenever the name is in a top-level position, and every call passes toplevel=true except the map-member position; (R3) whether a supplied placeholder is 'used' is decided on whole placeholders (match followed by a boundary test, or tokens), not by substring containment; (R4) the two placeholder-key patterns are ^#[A-Za-z0-9_]+$ and ^:[A-Za-z0-9_]+$, every supplied key is matched and a mismatch is an error; (R5) a #name/:value that is not bound yields an error rather than an undefined value; (R6) the key condition's shape is validated against the key schema before iteration; (R7) batch writes: the limit constant is 25, compared with > against the total over all tables, and a request that is neither or both put and delete is rejected.",
+		Decided:    "(R1) the reserved-word table equals the reference list of 573 words in both directions (a missing word under-rejects, an extra word rejects a legal request); (R2) a bare name is looked up in the environment only through one funnel in which the reserved-word test on the upper-cased literal precedes the lookup whenever the name is in a top-level position, and every call passes toplevel=true except the map-member position; (R3) whether a supplied placeholder is 'used' is decided on whole placeholders (match followed by a boundary test, or tokens), not by substring containment; (R4) the two placeholder-key patterns are ^#[A-Za-z0-9_]+$ and ^:[A-Za-z0-9_]+$, every supplied key is matched and a mismatch is an error; (R5) a #name/:value that is not bound yields an error rather than an undefined value; (R6) the key condition's shape is validated against the key schema before iteration; (R7) batch writes: the limit constant is 25, compared with > against the total over all tables, and a request that is neither or both put and delete is rejected; (R8) the restrictions are detected while an operand is evaluated: every evaluator of a node with several operand fields evaluates all of them before it returns a non-error result (no short-circuit that lets a reserved word or an undefined function in the skipped operand go unnoticed).",
 		NotDecided: "completeness of the rejection for every syntactic position of every reserved word beyond the identifier-evaluation funnel of R2; the reference list itself is a transcription that cannot be re-fetched offline (trusted base).",
 		Assumes:    []string{"checker/ref/reserved_words.txt (573 words) is the AWS 'Reserved words in DynamoDB' list, including its documented spellings FLATTERN, INNTER, LOGED"},
 		Rules: []RuleDef{
